@@ -10,6 +10,8 @@ import (
 	"encoding/json"
 	"fmt"
 	"sort"
+	"strconv"
+	"strings"
 )
 
 type stream struct {
@@ -85,7 +87,7 @@ func isErr(o *WObs) bool { return o.Result.Reason.Kind == "ERROR" }
 var propSpecs = map[string]*propSpec{
 	"C01": {
 		id:      "C01",
-		streams: []stream{{"malformed", 12000}, {"wellformed", 6000}, {"graphs", 1500}, {"prereqs", 3000}},
+		streams: []stream{{"malformed", 12000}, {"wellformed", 6000}, {"graphs", 1500}, {"prereqs", 3000}, {"bigseg", 3000}, {"operators", 3000}, {"segprobe", 2000}, {"manykinds", 1000}, {"wide", 500}},
 		proj: func(o *WObs) any {
 			return []any{o.Outcome == "done", o.Result.Index != nil, o.Result.Reason.Kind == "ERROR", o.Result.Reason.ErrorKind}
 		},
@@ -96,6 +98,9 @@ var propSpecs = map[string]*propSpec{
 			}
 			if wf, ok := out.pred["wellformed"].(bool); !ok || !wf {
 				return "result is not well-formed"
+			}
+			if ewf, ok := out.pred["eventsWellformed"].(bool); ok && !ewf {
+				return "a prerequisite event carries a result that is not well-formed"
 			}
 			if c.Ctx.T == "invalid" {
 				ek := ""
@@ -116,7 +121,7 @@ var propSpecs = map[string]*propSpec{
 	},
 	"C02": {
 		id:      "C02",
-		streams: []stream{{"wellformed", 12000}, {"prereqs", 4000}, {"targets", 3000}, {"wide", 800}},
+		streams: []stream{{"wellformed", 12000}, {"prereqs", 4000}, {"targets", 3000}, {"wide", 800}, {"operators", 5000}, {"malformed", 3000}, {"bigseg", 2000}},
 		proj:    func(o *WObs) any { return core(o) },
 		nontrivial: func(c *EvalCase) bool {
 			// at least two stages present in the evaluated flag
@@ -221,7 +226,7 @@ var propSpecs = map[string]*propSpec{
 	},
 	"C09": {
 		id:      "C09",
-		streams: []stream{{"prereqs", 12000}, {"graphs", 2000}, {"malformed", 3000}, {"wide", 800}},
+		streams: []stream{{"prereqs", 12000}, {"graphs", 2000}, {"malformed", 3000}, {"wide", 800}, {"bigseg", 3000}, {"manykinds", 1000}, {"bucketdense", 2000}},
 		proj:    func(o *WObs) any { return []any{core(o), o.Events, o.FlagLookups} },
 		goPred: func(c *EvalCase, out *evalOutcome) string {
 			if !c.Go.EventsOK {
@@ -236,7 +241,7 @@ var propSpecs = map[string]*propSpec{
 		id:      "C10",
 		streams: []stream{{"graphs", 6000}, {"malformed", 4000}},
 		proj: func(o *WObs) any {
-			return []any{o.Outcome, o.Result.Reason.Kind, o.Result.Reason.ErrorKind, o.Events}
+			return []any{o.Outcome, o.Result.Reason.Kind, o.Result.Reason.ErrorKind, o.Events, o.FlagLookups, o.SegLookups}
 		},
 		goPred: func(c *EvalCase, out *evalOutcome) string {
 			if c.Go.Outcome == "crash" || c.Go.Outcome == "timeout" {
@@ -251,7 +256,7 @@ var propSpecs = map[string]*propSpec{
 	},
 	"C11": {
 		id:      "C11",
-		streams: []stream{{"bigseg", 15000}, {"manykinds", 3000}},
+		streams: []stream{{"bigseg", 15000}, {"manykinds", 3000}, {"malformed", 3000}},
 		proj: func(o *WObs) any {
 			return []any{o.Result.Reason.BSS, o.BSQueries, o.MemChecks, core(o)}
 		},
@@ -290,7 +295,7 @@ var propSpecs = map[string]*propSpec{
 	},
 	"C19": {
 		id:      "C19",
-		streams: []stream{{"malformed", 12000}, {"graphs", 2000}, {"wellformed", 2000}},
+		streams: []stream{{"malformed", 12000}, {"graphs", 2000}, {"wellformed", 2000}, {"bigseg", 3000}, {"prereqs", 3000}, {"segments", 3000}, {"operators", 3000}},
 		proj:    func(o *WObs) any { return []any{o.Result.Reason.ErrorKind, o.Logs} },
 		goPred: func(c *EvalCase, out *evalOutcome) string {
 			g := c.Go
@@ -307,6 +312,24 @@ var propSpecs = map[string]*propSpec{
 				}
 				if l[1] == "other" {
 					return "log line does not say what the problem is: " + fmt.Sprint(g.RawLogs)
+				}
+			}
+			// every line mentions the operands of its problem (the variation index, the attribute
+			// reference, the key of the prerequisite or of the segment(s)), as the model's line does
+			if out.model != nil && len(out.model.LogOps) == len(g.RawLogs) && canon(out.model.Logs) == canon(g.Logs) {
+				for i, line := range g.RawLogs {
+					for _, op := range out.model.LogOps[i] {
+						want := ""
+						switch {
+						case strings.HasPrefix(op, "d:"):
+							want = " " + op[2:]
+						case strings.HasPrefix(op, "q:"):
+							want = strconv.Quote(op[2:])
+						}
+						if want != "" && !strings.Contains(line, want) {
+							return fmt.Sprintf("log line %q does not mention %s", line, want)
+						}
+					}
 				}
 			}
 			return ""
